@@ -7,7 +7,17 @@ import common
 import gen
 
 
+_CASES = {}
+
+
 def cases(ctx, attempts, depth=3, batches=16):
+    key = (ctx.seed, attempts, depth, batches)
+    if key not in _CASES:
+        _CASES[key] = _cases(ctx, attempts, depth, batches)
+    return _CASES[key]
+
+
+def _cases(ctx, attempts, depth=3, batches=16):
     reqs = ['gram %d %d %d' % (ctx.rng('gram%d' % i).randrange(1 << 30), attempts // batches, depth) for i in range(batches)]
     out = []
     for line in _run(reqs):
@@ -34,13 +44,17 @@ def _run(reqs):
         return [x[0] for x in ex.map(lambda q: common.model_batch([q], timeout=900), reqs)]
 
 
+def impl_tree(s, tol):
+    return _impl((s, tol))
+
+
 def _impl(case):
     s, tol = case
     line = common.impl_parse(s, tol)[0]
     return line[5:line.index(' SER ')] if line.startswith('TREE ') else line
 
 
-def run(ctx, r, attempts, depth=3):
+def run(ctx, r, attempts, depth=3, key='grammar-mismatch'):
     """Adds the comparison to Result r; failures have key 'grammar-mismatch'."""
     cs = cases(ctx, attempts, depth)
     jobs = [(s, t) for s, _ in cs for t in (0, 1)]
@@ -50,8 +64,8 @@ def run(ctx, r, attempts, depth=3):
         for t in (0, 1):
             r.count(('gram', s, t), len(s) > 3)
             if got[k] != exp:
-                r.fail('grammar-mismatch', 'implementation differs from treeD of a document of the proved grammar',
-                       input=s, tol=t, impl=got[k][:300], expected=exp[:300])
+                r.fail(key, 'implementation differs from treeD of a document of the proved grammar',
+                       input=s, tol=t, impl=got[k][:300], expected_tree=exp[:8000])
             k += 1
     r.bump('proved_grammar_documents', len(cs))
     if cs:
